@@ -160,6 +160,24 @@ def geometry_edits(spec, ds):
                 ds, name, xarray.Variable(var.dims, var.values, attrs, var.encoding))
 
 
+    # attributes whose names start with an underscore are attributes like any other
+    for name in names[:2]:
+        var = ds.variables[name]
+        attrs = dict(var.attrs)
+        attrs["_CoordinateAxisType"] = "GeoX"
+        yield f"attr_add_underscore:{name}", replace_variable(
+            ds, name, xarray.Variable(var.dims, var.values, attrs, var.encoding))
+    for name in names:
+        var = ds.variables[name]
+        hidden = [k for k in var.attrs if str(k).startswith("_")]
+        if hidden and var.dtype.kind in "iu":
+            attrs = dict(var.attrs)
+            attrs[hidden[0]] = var.dtype.type(int(attrs[hidden[0]]) - 7)
+            yield f"attr_change_underscore:{name}", replace_variable(
+                ds, name, xarray.Variable(var.dims, var.values, attrs, var.encoding))
+            break
+
+
 def non_geometry_edits(spec, ds):
     data_names = [v["name"] for v in spec["vars"] if v["name"] in ds.data_vars]
     some_dim = next(iter(ds.dims))
